@@ -33,6 +33,7 @@ type vTrig struct {
 	ph      chan ProcessorHarvest
 	ah      *AppHarvest
 	closing bool
+	viaProc bool
 	closed  chan struct{}
 }
 
@@ -124,9 +125,14 @@ func vTrigScan() vGState {
 		if len(lines) > 2 {
 			top = lines[2]
 		}
+		createdBy := ""
+		if i := strings.LastIndex(s, "created by"); i >= 0 {
+			createdBy = s[i:]
+		}
 		switch {
-		case strings.Contains(s, "(*AppHarvest).Close"):
-			if !blocked {
+		case strings.Contains(s, "(*AppHarvest).Close") || strings.Contains(createdBy, "shutdownAppHarvest"):
+			// the goroutine running Close (possibly not yet inside it)
+			if !blocked || !strings.Contains(s, "(*AppHarvest).Close") {
 				g.busy = true
 			}
 			if st == "chan send" {
@@ -172,6 +178,13 @@ func (e *vTrig) settle() vGState {
 	start := time.Now()
 	for {
 		g := vTrigScan()
+		if g.closer == "none" && e.closing && !e.viaProc {
+			select {
+			case <-e.closed:
+			default:
+				g.busy = true // the goroutine that will run Close has not started yet
+			}
+		}
 		if !g.busy && g == last {
 			stable++
 			if stable >= 2 {
@@ -187,11 +200,16 @@ func (e *vTrig) settle() vGState {
 		time.Sleep(50 * time.Microsecond)
 	}
 	if last.closer == "none" && e.closing {
-		select {
-		case <-e.closed:
+		if e.viaProc {
+			// shutdownAppHarvest has returned, so its Close goroutine existed; none is left: Close has returned
 			last.closer = "done"
-		default:
-			last.closer = "starting"
+		} else {
+			select {
+			case <-e.closed:
+				last.closer = "done"
+			default:
+				last.closer = "starting"
+			}
 		}
 	}
 	return last
@@ -206,6 +224,20 @@ func (e *vTrig) abandon() {
 	if !e.closing {
 		e.closing = true
 		go func() { e.ah.Close(); close(e.closed) }()
+	}
+	if e.viaProc {
+		// drain until every goroutine of the run is gone
+		for i := 0; i < 2000; i++ {
+			select {
+			case <-e.ph:
+			default:
+			}
+			if g := vTrigScan(); g.fwd == "done" && g.closer == "none" && g.idle+g.holding+g.otherMember == 0 {
+				return
+			}
+			time.Sleep(100 * time.Microsecond)
+		}
+		return
 	}
 	deadline := time.After(2 * time.Second)
 	for {
@@ -298,6 +330,23 @@ func vTrigOp(t []string) string {
 			go func() { e.ah.Close(); close(e.closed) }()
 		}
 		return e.settle().String()
+	case "procclose":
+		// the processor's own way of ending a run: the REAL shutdownAppHarvest, called on the goroutine that is also the
+		// only receiver of the harvest channel (as the processor is); it must come back at once
+		blocked := "0"
+		if !e.closing {
+			e.closing = true
+			e.viaProc = true
+			p := &Processor{harvests: map[AgentRunID]*AppHarvest{AgentRunID("r1"): e.ah}}
+			done := make(chan struct{})
+			go func() { p.shutdownAppHarvest(AgentRunID("r1")); close(done) }()
+			select {
+			case <-done:
+			case <-time.After(1500 * time.Millisecond):
+				blocked = "1"
+			}
+		}
+		return e.settle().String() + " blocked=" + blocked
 	case "drain":
 		var got []string
 		for i := 0; i < 64; i++ {
